@@ -58,6 +58,15 @@ const (
 // type: identifier | identifier '<' type '>'
 //
 func parseTerm(l *lexer, t token) (idempotent bool, typ termType, err error) {
+	if err = l.enter(); err != nil {
+		return false, termInvalid, err
+	}
+	idempotent, typ, err = parseNestedTerm(l, t)
+	l.leave()
+	return idempotent, typ, err
+}
+
+func parseNestedTerm(l *lexer, t token) (idempotent bool, typ termType, err error) {
 	switch t {
 	case tkInteger: // Integer lister
 		return true, termIntegerLiteral, nil
